@@ -102,8 +102,8 @@ def _chunks(trace, size):
 def validate(c, trace, pid, chunk=12000, also=("panic",)):
     """Validate a dpadv trace; report the BAD keys of property pid; return statistics."""
     files, metas, lines = _chunks(trace, chunk)
-    with ThreadPoolExecutor(max_workers=min(6, max(1, len(files)))) as ex:
-        rs = list(ex.map(lambda p: c.validate("RouterStepTrace", "RouterStepTrace.cfg", p, timeout=2400), files))
+    with ThreadPoolExecutor(max_workers=min(4, max(1, len(files)))) as ex:
+        rs = list(ex.map(lambda p: c.validate("RouterStepTrace", "RouterStepTrace.cfg", p, timeout=2400, heap="3g"), files))
     stats = {"pkt": 0, "passed": 0, "slow": 0, "scmp": 0, "drift": 0}
     drift, foreign = {}, {}
     for r, (start, inj), p in zip(rs, metas, files):
